@@ -133,3 +133,44 @@ QUERIES = [
      "bound": "chain of 3; each target never submitted / pending / running (quick) + finished (thorough), symbolic; selections %s; --force or prompt answer; the k-th cancel command failing for k in 0..3 (symbolic; none for the pool, whose protocol has no answer to cancel); "
               "then status and run; Slurm all selections + two selections on SGE, LSF, pool (quick); everything (thorough)" % (PATS,)},
 ]
+
+
+# ---------------------------------------------------------------- Q17p  cancelling a task in the real pool hits that task only
+from vf.props import localpool as LP
+
+
+def _q17p(e0, e1, e2, e3, e4, e5, f0, f1, f2, f3, f4, f5, rc0, rc1, rc2, rc3, sf, lf):
+    r = LP.pool_body((e0, e1, e2, e3, e4, e5, f0, f1, f2, f3, f4, f5, rc0, rc1, rc2, rc3, sf, lf))
+    if r is None or r == "":
+        return r
+    if r.startswith("unexpected"):
+        return r
+    if LP.LAST_SAW_CANCEL[0] and (r.startswith("[C13]") or r.startswith("[C11]")):
+        return "after a cancel request: " + r
+    return ""
+
+
+def q17p(e0: int, e1: int, e2: int, e3: int, e4: int, e5: int, f0: bool, f1: bool, f2: bool, f3: bool, f4: bool, f5: bool,
+         rc0: int, rc1: int, rc2: int, rc3: int, sf: int, lf: int) -> str:
+    """
+    post: _ == ""
+    """
+    return q.run(_q17p, (e0, e1, e2, e3, e4, e5, f0, f1, f2, f3, f4, f5, rc0, rc1, rc2, rc3, sf, lf))
+
+
+def _sp(shards):
+    out = []
+    for sh in shards:
+        out.extend(LP.split(sh))
+    return out
+
+
+QUERIES.append(
+    {"name": "Q17p", "fn": q17p,
+     "shards": {"quick": _sp([{"scen": "chain", "cores": 1, "steps": 2}, {"scen": "fork", "cores": 2, "steps": 2}]),
+                "thorough": _sp([{"scen": s, "cores": c, "steps": 3} for s in ("chain", "fork", "join", "late") for c in (1, 2)])},
+     "timeout": {"quick": 900, "thorough": 3000},
+     "bound": "the real worker pool (vf/props/localpool.py): event scripts containing a cancel request for any task (waiting for a dependency, for a core, running, finished): only that task and the tasks depending on it end cancelled; "
+              "every other task runs to the state its own exit status gives"})
+META["real"] = META["real"] + LP.META_COMMON["real"]
+META["stubs"] = META["stubs"] + LP.META_COMMON["stubs"]
